@@ -55,6 +55,7 @@ type simCfg struct {
 	Active struct {
 		On bool `json:"on"`
 		Iv int  `json:"iv"` // ticks
+		To int  `json:"to"` // probe timeout, whole seconds (default 1)
 	} `json:"active"`
 	RL struct {
 		On     bool `json:"on"`
@@ -314,7 +315,11 @@ func (s *sim) buildConfig() *config.Config {
 		c.HealthChecks.Passive = config.PassiveHealthCheckConfig{Enabled: false, UnhealthyThreshold: 1, UnhealthyTimeout: 2*sc.Passive.Win + 1}
 	}
 	if sc.Active.On {
-		c.HealthChecks.Active = config.ActiveHealthCheckConfig{Enabled: true, Interval: 2 * sc.Active.Iv, Timeout: 1, Path: "/healthz"}
+		to := sc.Active.To
+		if to == 0 {
+			to = 1
+		}
+		c.HealthChecks.Active = config.ActiveHealthCheckConfig{Enabled: true, Interval: 2 * sc.Active.Iv, Timeout: to, Path: "/healthz"}
 	}
 	if sc.RL.On {
 		c.RateLimit = config.RateLimitConfig{Enabled: true, MaxTokens: sc.RL.Max, RefillRate: sc.RL.Refill}
@@ -681,6 +686,7 @@ func (s *sim) run() {
 				n = 2
 			}
 			fin := make(chan struct{}, n)
+			t0 := time.Now()
 			for i := 0; i < n; i++ {
 				go func() { s.lb.Stop(); fin <- struct{}{} }()
 			}
@@ -694,7 +700,7 @@ func (s *sim) run() {
 			}
 			if okAll {
 				s.stopped = true
-				emit(map[string]any{"ev": "stopped", "n": n})
+				emit(map[string]any{"ev": "stopped", "n": n, "ms": int(time.Since(t0) / time.Millisecond)})
 			} else {
 				emit(map[string]any{"ev": "stuck", "id": -1, "at": "stop"})
 			}
